@@ -13,6 +13,7 @@ CONSTANTS
   MaxPropObjsW = 1
   MaxCalls = 2
   MaxSessions = 1
+  MaxRefused = 0
   GenPrint = FALSE
 INVARIANT RoundTrip
 INVARIANT ParentsFirst
